@@ -166,11 +166,11 @@ func OpaqueJoinNL(l [][]byte) []byte  { return bytes.Join(l, []byte("\n")) }
 //@   opt termination C13
 //@   results out err
 //@   ensures[C13] renumbered: implies(err == nil, out == OpaqueJoinNL(SpecEofList(OpaqueSplitNL(SpecOut(ruleId, utils.OpaqueScanLines(string(contents)), len(utils.OpaqueScanLines(string(contents))))))))
-//@   loop 0 invariant scanLines(scanner) == utils.OpaqueScanLines(string(contents)) && 0 <= scanPos(scanner) && scanPos(scanner) <= len(scanLines(scanner))
-//@   loop 0 invariant idCount == SpecIdCount(scanLines(scanner), scanPos(scanner))
-//@   loop 0 invariant titleCount == SpecTitleCount(scanLines(scanner), scanPos(scanner))
-//@   loop 0 invariant bufContent(output) == SpecOut(ruleId, scanLines(scanner), scanPos(scanner))
-//@   loop 0 decreases len(scanLines(scanner)) - scanPos(scanner)
+//@   loop 0 invariant[C13] scanLines(scanner) == utils.OpaqueScanLines(string(contents)) && 0 <= scanPos(scanner) && scanPos(scanner) <= len(scanLines(scanner))
+//@   loop 0 invariant[C13] idCount == SpecIdCount(scanLines(scanner), scanPos(scanner))
+//@   loop 0 invariant[C13] titleCount == SpecTitleCount(scanLines(scanner), scanPos(scanner))
+//@   loop 0 invariant[C13] bufContent(output) == SpecOut(ruleId, scanLines(scanner), scanPos(scanner))
+//@   loop 0 decreases[C13] len(scanLines(scanner)) - scanPos(scanner)
 
 var _ = strings.TrimSpace
 var _ = utils.OpaqueScanLines
